@@ -81,7 +81,7 @@ type variant struct {
 }
 
 type item struct {
-	base    *gramenum.Gram  // without error rules
+	base    *gramenum.Gram // without error rules
 	baseID  int
 	errs    []gramenum.Rule // the error alternatives
 	v       variant
@@ -210,7 +210,9 @@ func enumerate(c *core.Ctx) (strata [4][]*item, nBases int) {
 			}
 		}
 		mk := func(errs ...gramenum.Rule) {
-			v := variant{Marker: markable[k%len(markable)], Inject: (k/2)%2 == 1, Optimize: (k/4)%3 == 2}
+			// inject / optimizeTables are tied to the base grammar (one twin per base), the
+			// marker position cycles over the placements
+			v := variant{Marker: markable[k%len(markable)], Inject: bi%2 == 1, Optimize: (bi/2)%3 == 2}
 			k++
 			st := 0
 			if len(errs) == 2 {
@@ -241,8 +243,10 @@ func enumerate(c *core.Ctx) (strata [4][]*item, nBases int) {
 }
 
 // pick takes budget items: a quarter of the budget per stratum (left-over budget moves on to the
-// next stratum), inside a stratum a deterministic stride so that all shapes stay represented.
+// next stratum), inside a stratum a deterministic stride over the base grammars and over the
+// placements of each picked base, so that all shapes stay represented.
 func pick(strata [4][]*item, budget int) (sel []*item, complete bool) {
+	const perBase = 4
 	complete = true
 	left := budget
 	for s := 0; s < 4; s++ {
@@ -254,10 +258,28 @@ func pick(strata [4][]*item, budget int) (sel []*item, complete bool) {
 			continue
 		}
 		complete = false
-		for i := 0; i < share; i++ {
-			sel = append(sel, list[i*len(list)/share])
+		// group by base grammar (contiguous), pick bases by stride and up to perBase placements
+		// of each picked base by stride: the no-recovery twin is built once per base
+		var groups [][]*item
+		for i := 0; i < len(list); {
+			j := i
+			for j < len(list) && list[j].baseID == list[i].baseID {
+				j++
+			}
+			groups = append(groups, list[i:j])
+			i = j
 		}
-		left -= share
+		nb := min((share+perBase-1)/perBase, len(groups))
+		taken := 0
+		for b := 0; b < nb && taken < share; b++ {
+			g := groups[b*len(groups)/nb]
+			m := min(perBase, len(g), share-taken)
+			for i := 0; i < m; i++ {
+				sel = append(sel, g[i*len(g)/m])
+			}
+			taken += m
+		}
+		left -= taken
 	}
 	return
 }
@@ -796,7 +818,9 @@ func run(c *core.Ctx) {
 	c.Set("L", L)
 	c.Assume("internal/cfgoracle decides sentences (on G) and viable prefixes (on G' with `error` as a terminal that never occurs in inputs)")
 	c.Assume("first-error position = first token that cannot continue a sentence prefix (LALR(1) never shifts an erroneous token; C01 checks this for non-recovering parsers)")
+	t0 := time.Now()
 	strata, nBases := enumerate(c)
+	c.Set("enumeration_s", int(time.Since(t0).Seconds()))
 	total := 0
 	for s := range strata {
 		total += len(strata[s])
@@ -804,12 +828,13 @@ func run(c *core.Ctx) {
 	}
 	c.Set("base_grammars", nBases)
 	c.Set("candidate_recovery_grammars", total)
+	debugf("enumerated")
 	sel, complete := pick(strata, budget)
 	if !complete {
 		c.Capped(fmt.Sprintf("Layer B: %d of %d candidate recovery grammars generated and built (per-stratum stride)", len(sel), total))
 	}
 	r := &runner{c: c, L: L, twins: map[twinKey]map[string]string{}, twinTM: map[twinKey]string{}}
-	const batch = 64
+	const batch = 48
 	for start := 0; start < len(sel); start += batch {
 		if c.Expired() {
 			c.Capped(fmt.Sprintf("Layer B stopped after %d of %d selected grammars (budget)", start, len(sel)))
@@ -823,10 +848,18 @@ func run(c *core.Ctx) {
 	if r.hungMore > 0 {
 		c.Capped(fmt.Sprintf("%d further hanging sweeps were not localised to a single input", r.hungMore))
 	}
+	debugf("layer B done")
 	shippedPart(c)
+	debugf("shipped done")
 }
 
 func getenv(k string) string { return os.Getenv(k) }
+
+func debugf(format string, args ...any) {
+	if os.Getenv("VERIF_DEBUG") != "" {
+		fmt.Fprintf(os.Stderr, "[c19 %s] "+format+"\n", append([]any{time.Now().Format("15:04:05")}, args...)...)
+	}
+}
 
 func (r *runner) batch(items []*item, offset int) {
 	c := r.c
@@ -847,8 +880,10 @@ func (r *runner) batch(items []*item, offset int) {
 	})
 	var specs []genharness.Spec
 	twinSpec := map[twinKey]int{}
+	specOf := make([]int, len(items))
 	for i, it := range items {
 		p := &preps[i]
+		specOf[i] = len(specs)
 		specs = append(specs, genharness.Spec{Name: p.name, TM: p.tm, Driver: driver,
 			Cases: []genharness.Case{{Mode: "sweep", Text: sweepText(r.L, p.exp)}}})
 		if _, done := r.twins[p.twin]; !done {
@@ -864,7 +899,9 @@ func (r *runner) batch(items []*item, offset int) {
 			}
 		}
 	}
+	t0 := time.Now()
 	outs, err := genharness.RunBatch(specs, genharness.BatchOpts{CaseTimeout: 60 * time.Second})
+	debugf("batch at %d: %d specs (%d twins) in %.1fs", offset, len(specs), len(twinSpec), time.Since(t0).Seconds())
 	if err != nil {
 		c.Violate("layerB:harness", err.Error(), nil)
 		return
@@ -889,7 +926,7 @@ func (r *runner) batch(items []*item, offset int) {
 	}
 	for i, it := range items {
 		p := &preps[i]
-		out := outs[i]
+		out := outs[specOf[i]]
 		rc := func(text string, stop bool) recCase {
 			return recCase{TM: p.tm, TwinTM: r.twinTM[p.twin], Base: it.base, Errs: it.errs, V: it.v, Text: text, Stop: stop}
 		}
@@ -1220,8 +1257,8 @@ func mutations(lang, seed string) []string {
 		if r[0] >= r[1] {
 			continue
 		}
-		add(seed[:r[0]] + seed[r[1]:])                            // deletion
-		add(seed[:r[1]] + " " + seed[r[0]:r[1]] + seed[r[1]:])     // duplication
+		add(seed[:r[0]] + seed[r[1]:])                         // deletion
+		add(seed[:r[1]] + " " + seed[r[0]:r[1]] + seed[r[1]:]) // duplication
 	}
 	return out
 }
